@@ -64,7 +64,7 @@ EPS = R.EPS
 
 # ----------------------------------------------------------------------------- case plan
 def _share_count(tier):
-    return (14, 14) if tier == "quick" else (1000, 1000)
+    return (14, 14) if tier == "quick" else (1500, 1500)
 
 
 def cases(seed, tier):
@@ -77,7 +77,7 @@ def cases(seed, tier):
     n_pl, n_sf = _share_count(tier)
     alpha_bin = ALPHA_RUN / (MAX_BINS * (n_pl + n_sf))
     # --- boxes
-    n_box = 260 if quick else 18000
+    n_box = 260 if quick else 27000
     for i in range(n_box):
         dim = 1 + i % 5
         mode = "grid" if i % 2 else "uniform"
@@ -89,7 +89,7 @@ def cases(seed, tier):
         out.append({"gen": "box", "seed": S(), "cls": cls, "dim": dim, "n": n, "mode": mode,
                     "cloud": dim <= 3 and (i // 10) % 3 == 1})
     # --- sphere / ball
-    n_sb = 160 if quick else 12000
+    n_sb = 160 if quick else 18000
     radii = [1.0, 1, 2, 0.5, 1e-3, 1e3]
     for i in range(n_sb):
         kind = "ball" if i % 2 else "sphere"
@@ -97,18 +97,18 @@ def cases(seed, tier):
         out.append({"gen": kind, "seed": S(), "r": r, "ccls": ["origin", "unit", "far", "vfar"][(i // 2) % 4],
                     "ctype": ["vec", "nd"][(i // 8) % 2], "n": rng.choice([1, 3, 20, 100, 300]), "cloud": (i // 4) % 3 == 2})
     # --- polyline / surface domain
-    n_pd = 70 if quick else 5000
+    n_pd = 70 if quick else 7500
     for i in range(n_pd):
         out.append({"gen": "polyline", "seed": S(), "cls": Z.POLYLINE_CLASSES[i % len(Z.POLYLINE_CLASSES)],
                     "ne": rng.choice([1, 2, 3, 5, 12, 40, 120]), "n": rng.choice([1, 10, 80, 200]), "cloud": (i // 6) % 3 == 1,
                     "vrows": ["list", "tuple", "nprow", "vec"][i % 4], "irows": ["list", "tuple", "npint"][(i // 4) % 3],
                     "scale": rng.choice([1.0, 1.0, 1e-3, 1e3]), "shift": rng.choice([0.0, 0.0, 10.0, 1e4])})
-    n_sd = 90 if quick else 6000
+    n_sd = 90 if quick else 9000
     for i in range(n_sd):
         out.append({"gen": "surface", "seed": S(), "n": rng.choice([1, 10, 60, 150]), "variant": i % 4,
                     "vrows": ["list", "tuple", "nprow", "vec"][(i // 4) % 4], "irows": ["list", "tuple", "npint"][i % 3],
                     "generic": i % 5 != 4, "max_size": rng.choice([2, 4, 6])})
-    for i in range(6 if quick else 120):
+    for i in range(6 if quick else 180):
         out.append({"gen": "surface", "seed": S(), "n": rng.choice([1, 7, 40]), "variant": i % 4, "vrows": "list", "irows": "list",
                     "generic": True, "max_size": 1, "single": True})
     # --- share experiments
@@ -119,7 +119,7 @@ def cases(seed, tier):
         out.append({"gen": "share_surface", "seed": S(), "cls": Z.UNEQUAL_CLASSES[i % len(Z.UNEQUAL_CLASSES)],
                     "N": N_SHARE, "alpha_bin": alpha_bin, "normals": i % 3 == 0})
     # --- Bezier curves
-    n_cv = 130 if quick else 10000
+    n_cv = 130 if quick else 15000
     for i in range(n_cv):
         deg = [1, 2, 3, 4, 5, 6, 0][i % 7]
         dim = [3, 2, 1, 4][(i // 7) % 4]
@@ -127,7 +127,7 @@ def cases(seed, tier):
         out.append({"gen": "curve", "seed": S(), "cls": Z.NET_CLASSES[(i // 3) % len(Z.NET_CLASSES)], "deg": deg, "dim": dim,
                     "ptype": ["list", "nd", "vec", "tuple"][(i // 2) % 4], "ns": ns, "long_custom": i % 16 == 5})
     # --- Bezier patches
-    n_pa = 130 if quick else 10000
+    n_pa = 130 if quick else 15000
     for i in range(n_pa):
         m = [1, 2, 3, 4, 5, 6, 0][i % 7]
         n = [2, 1, 3, 6, 5, 4, 0, 2][(i // 7) % 8]
@@ -139,7 +139,7 @@ def cases(seed, tier):
                     "ptype": ["list", "nd", "vec"][(i // 2) % 3], "pairs": [[n1, n2]]})
     # --- as_surface sweep: every (n1, n2) in 2..7 (quick) / 2..10 (thorough) on a small net
     hi = 7 if quick else 10
-    for rep in range(1 if quick else 12):
+    for rep in range(1 if quick else 18):
         for n1 in range(2, hi + 1):
             out.append({"gen": "patch", "seed": S(), "cls": "generic", "m": 1 + (n1 + rep) % 3, "n": 1 + (n1 + 2 * rep + 1) % 3, "dim": 3,
                         "ptype": "list", "pairs": [[n1, n2] for n2 in range(2, hi + 1)], "light": True})
